@@ -236,7 +236,14 @@ def vw_parser(repo, chk):
         if it in (exp("line.strip().split('|')[1:]"), exp("line.split('|')[1:]"), exp("line.rstrip().split('|')[1:]"), exp("line.rstrip('\\n').split('|')[1:]"), exp("line.rstrip('\\r\\n').split('|')[1:]")):
             part_loop = lp
     if part_loop is None or not isinstance(part_loop.target, ast.Name):
-        chk.bad('C16.3a', 'R15', fn.site(), 'for <part> in line.strip().split("|")[1:]', 'no loop over all namespace sections after the label section was found: namespaces are dropped or the label section is parsed as a namespace')
+        accepted = [exp("line.strip().split('|')[1:]"), exp("line.split('|')[1:]"), exp("line.rstrip().split('|')[1:]")]
+        cand = [(lp, term_of(fn, lp.iter, roles)) for lp in loops]
+        cand = [(lp, t) for lp, t in cand if any(x == ('role', 'line') for x in walk_term(t))]
+        from ..match import within_vocabulary
+        if cand and not all(within_vocabulary(t, accepted) for lp, t in cand):
+            chk.unsure('C16.3a', 'R15', fn.site(cand[0][0]), ast.unparse(cand[0][0].iter)[:100], 'a loop over parts of the line exists, but how the sections after the label are obtained is outside the vocabulary of the accepted forms')
+        else:
+            chk.bad('C16.3a', 'R15', fn.site(cand[0][0]) if cand else fn.site(), 'for <part> in line.strip().split("|")[1:]', 'no loop over all namespace sections after the label section was found: namespaces are dropped or the label section is parsed as a namespace')
         return
     chk.ok('C16.3a', 'R15', fn.site(part_loop), ast.unparse(part_loop.iter), 'every section after the first "|" is visited')
     roles[part_loop.target.id] = ('role', 'part')
@@ -255,67 +262,72 @@ def vw_parser(repo, chk):
         if isinstance(s.targets[0].value, ast.Name):
             found = True
             hash_name = s.targets[0].value.id
-            chk.expect(kt in key_ok, 'C16.3b', 'R15', fn.site(s), ast.unparse(s.targets[0]),
-                       'tokens are filed under the column of their namespace id', f'the column key must be fw_col_mapping[first token of the section]; found {show(kt)[:120]}')
-            chk.expect(vt in val_ok, 'C16.3c', 'R15', fn.site(s), ast.unparse(s.value)[:160],
-                       "tokens after the namespace id, empty ones dropped, joined by '-'", f"the cell must be '-'.join(non-empty tokens after the namespace id); found {show(vt)[:160]}")
+            chk.expect_term(kt, key_ok, 'C16.3b', 'R15', fn.site(s), ast.unparse(s.targets[0]),
+                            'tokens are filed under the column of their namespace id', f'the column key must be fw_col_mapping[first token of the section]; found {show(kt)[:120]}')
+            chk.expect_term(vt, val_ok, 'C16.3c', 'R15', fn.site(s), ast.unparse(s.value)[:160],
+                            "tokens after the namespace id, empty ones dropped, joined by '-'", f"the cell must be '-'.join(non-empty tokens after the namespace id); found {show(vt)[:160]}")
     if not found:
         chk.bad('C16.3b', 'R15', fn.site(part_loop), 'HASH[fw_col_mapping[ns]] = tokens', 'no store of the section tokens under the namespace column was found')
         return
     roles[hash_name] = ('role', 'hash')
 
-    # the returned list
-    rets = returns(fn)
+    # the returned list: path evaluation, forking on include_namespace_info
+    from ..match import run_paths
+    from ..terms import unkind
     label_ok = [exp("line.strip().split('|')[0].split(' ')[0]"), exp("line.split('|')[0].split(' ')[0]"), exp("line.strip().split('|')[0].split()[0]")]
-    cells_plain = [exp("[hash.get(el, None) for el in header[1:]]"), exp("[hash.get(el) for el in header[1:]]")]
-    strip2 = [exp("[x[2:] if x is not None else None for x in CELLS]", {'CELLS': ('role', 'CELLS')}), exp("[None if x is None else x[2:] for x in CELLS]", {'CELLS': ('role', 'CELLS')})]
-    # the instance list is re-bound under `if not include_namespace_info`; analyse both definitions
-    inst_defs = []
-    for r in rets:
-        rt = r.value
-        if not (isinstance(rt, ast.Name) or isinstance(rt, ast.BinOp)):
-            chk.unsure('C16.3d', 'R15', fn.site(r), ast.unparse(r), 'unrecognised return of the VW parser')
+    plain = "[hash.get(el) for el in header[1:]]"
+    cells_plain = [unkind(exp(plain))]
+    cells_strip = [unkind(exp(f"[x[2:] if x is not None else None for x in {plain}]")), unkind(exp(f"[None if x is None else x[2:] for x in {plain}]")),
+                   unkind(exp("[hash.get(el)[2:] if hash.get(el) is not None else None for el in header[1:]]")), unkind(exp("[None if hash.get(el) is None else hash.get(el)[2:] for el in header[1:]]"))]
+    paths = run_paths(fn, None, None, max_forks=3)
+    if paths is None:
+        chk.unsure('C16.3d', 'R15', fn.site(), 'return [label] + cells', 'too many undecidable tests in the VW parser')
+        return
+    nsparam = p[5] if len(p) > 5 else None
+    seen_plain = seen_strip = False
+    for assume, res in paths:
+        if res.unknown is not None or res.returned is None:
+            chk.unsure('C16.3d', 'R15', fn.site(res.unknown) if res.unknown is not None else fn.site(), 'return [label] + cells', 'the returned row could not be written as one expression on this path')
             continue
-        expr = rt
-        scope = Scope(fn)
-        if isinstance(expr, ast.Name) and scope.single_def(expr.id) is not None:
-            expr = scope.single_def(expr.id)
+        # which way was include_namespace_info decided on this path?
+        ns = None
+        for t, v in res.assumed:
+            tt = term_of(fn, t, roles, inline=False)
+            if tt == ('role', 'nsinfo'):
+                ns = v
+            elif tt == ('not', ('role', 'nsinfo')) or tt in (exp('nsinfo == False'), exp('nsinfo is False')):
+                ns = not v
+            elif tt in (exp('nsinfo == True'), exp('nsinfo is True')):
+                ns = v
+        expr = res.returned
+        if isinstance(expr, ast.List) and len(expr.elts) == 2 and isinstance(expr.elts[1], ast.Starred) and not isinstance(expr.elts[0], ast.Starred):
+            expr = ast.fix_missing_locations(ast.BinOp(left=ast.List([expr.elts[0]], ast.Load()), op=ast.Add(), right=expr.elts[1].value))
+        site = fn.site(res.returned) if hasattr(res.returned, 'lineno') else fn.site()
         if not (isinstance(expr, ast.BinOp) and isinstance(expr.op, ast.Add) and isinstance(expr.left, ast.List) and len(expr.left.elts) == 1):
-            chk.bad('C16.3d', 'R15', fn.site(r), ast.unparse(expr), 'the parsed row must be [label] + namespace cells (label first, one cell per header column)')
-            continue
-        lt = term_of(fn, expr.left.elts[0], roles)
-        chk.expect(lt in label_ok, 'C16.3d', 'R15', fn.site(r), ast.unparse(expr.left.elts[0]),
-                   'label is the first space-token of the section before the first "|"', f'label must be the first token of the first section; found {show(lt)[:120]}')
-        inst = expr.right
-        if not isinstance(inst, ast.Name):
-            t = term_of(fn, inst, roles)
-            chk.expect(t in cells_plain, 'C16.3e', 'R15', fn.site(r), ast.unparse(inst)[:120], 'one cell per header column', f'cells must be [hash.get(el, None) for el in table_header[1:]]; found {show(t)[:120]}')
-            continue
-        defs = [d for d in scope.defs.get(inst.id, []) if d is not None]
-        if not defs:
-            chk.unsure('C16.3e', 'R15', fn.site(r), inst.id, 'cannot find the definition of the cell list')
-            continue
-        base_seen = strip_seen = False
-        for d in defs:
-            t = Canon(m, scope, inline=False, bound={**roles, inst.id: ('role', 'CELLS')}).t(d)
-            t_inl = term_of(fn, d, roles)
-            if t_inl in cells_plain or t in cells_plain:
-                base_seen = True
-                chk.ok('C16.3e', 'R15', fn.site(d), ast.unparse(d)[:120], 'absent namespaces are None; one cell per header column after the label')
-            elif t in strip2:
-                strip_seen = True
-                # guard: not include_namespace_info
-                st = _stmt_containing(fn, d, par)
-                guards = [g for g in _enclosing_ifs(st, par)]
-                gok = len(p) <= 5 or any(term_of(fn, g.test, roles) in (exp('not nsinfo'), exp('nsinfo == False'), exp('nsinfo is False')) for g in guards)
-                chk.expect(gok, 'C16.3f', 'R15', fn.site(d), ast.unparse(d)[:120], 'two-character prefix removed (when namespace info is not requested), None preserved',
-                           'prefix removal must be guarded by `not include_namespace_info`')
+            if isinstance(expr, (ast.List, ast.BinOp, ast.ListComp)) and not isinstance(res.returned, ast.Name):
+                chk.bad('C16.3d', 'R15', site, ast.unparse(expr)[:140], 'the parsed row must be [label] + namespace cells (label first, one cell per header column)')
             else:
-                chk.bad('C16.3e', 'R15', fn.site(d), ast.unparse(d)[:160], f'cell list is neither the header-ordered lookup nor the [2:] prefix removal; found {show(t)[:160]}')
-        if not base_seen:
-            chk.bad('C16.3e', 'R15', fn.site(r), inst.id, 'the header-ordered lookup [hash.get(el, None) for el in table_header[1:]] was not found')
-        if not strip_seen:
-            chk.bad('C16.3f', 'R15', fn.site(r), inst.id, 'the two-character namespace prefix is not removed from the cells (x[2:] for non-missing cells)')
+                chk.unsure('C16.3d', 'R15', site, ast.unparse(expr)[:140], 'the returned row is built step by step / in a form outside the vocabulary: cannot be compared with [label] + namespace cells')
+            continue
+        lt = term_of(fn, expr.left.elts[0], roles, inline=False)
+        chk.expect_term(lt, label_ok, 'C16.3d', 'R15', site, ast.unparse(expr.left.elts[0])[:100],
+                        'label is the first space-token of the section before the first "|"', f'label must be the first token of the first section; found {show(lt)[:120]}')
+        ct = unkind(term_of(fn, expr.right, roles, inline=False))
+        shown = ast.unparse(expr.right)[:160]
+        if ct in cells_plain:
+            seen_plain = True
+            if ns is False or (nsparam is not None and ns is None and len(paths) == 1):
+                chk.bad('C16.3f', 'R15', site, shown, 'the two-character namespace prefix is not removed from the cells (x[2:] for non-missing cells) when namespace info is not requested')
+            else:
+                chk.ok('C16.3e', 'R15', site, shown, 'absent namespaces are None; one cell per header column after the label')
+        elif ct in cells_strip:
+            seen_strip = True
+            chk.ok('C16.3e', 'R15', site, shown, 'absent namespaces are None; one cell per header column after the label')
+            chk.expect(ns is not True, 'C16.3f', 'R15', site, shown, 'two-character prefix removed (when namespace info is not requested), None preserved', 'prefix removal must be guarded by `not include_namespace_info`')
+        else:
+            chk.expect_term(ct, cells_plain + cells_strip, 'C16.3e', 'R15', site, shown, '', f'cell list is neither the header-ordered lookup [hash.get(el, None) for el in table_header[1:]] nor its [2:] prefix removal; found {show(ct)[:160]}')
+    if seen_plain and not seen_strip and not any(o.oid in ('C16.3e', 'C16.3f', 'C16.3d') and o.status != 'discharged' for o in chk.obs):
+        chk.bad('C16.3f', 'R15', fn.site(), 'x[2:] for non-missing cells', 'the two-character namespace prefix is not removed from the cells (x[2:] for non-missing cells)')
 
 
 def _stmt_containing(fn, expr, par):
@@ -343,104 +355,173 @@ def _is_data_source(e):
 
 
 def dispatch(repo, chk):
+    """For every documented --data_source value the dispatching function is evaluated with that value (path evaluation): the value
+    returned must come from the reader / parser of that format, with the arguments in their roles; an unknown value must raise."""
+    from ..match import run_paths
     for fname, table, oid in (('generic_line_parser', EXPECTED_PARSERS, 'C16.4a'), ('get_dataset_info', EXPECTED_INFO, 'C16.4b')):
         fn = repo.func(CU, fname)
-        first = next((s for s in fn.node.body if isinstance(s, ast.If)), None)
-        if first is None:
-            chk.unsure(oid, 'R7', fn.site(), fname, 'no dispatch chain found')
-            continue
-        branches, else_body = dispatch_chain(first, _is_data_source)
         for src, callee in table.items():
-            b = selects(branches, src)
-            if b is None:
-                chk.bad(oid, 'R7', fn.site(first), f'data_source == {src!r}', f'source format {src!r} is not handled by {fname} (falls to the default branch)')
+            paths = run_paths(fn, _is_data_source, src, max_forks=3)
+            if paths is None or any(r.unknown is not None for _, r in paths):
+                bad = next((r.unknown for _, r in (paths or []) if r.unknown is not None), None)
+                chk.unsure(oid, 'R7', fn.site(bad) if bad is not None else fn.site(), f'data_source == {src!r}', 'a statement outside the path vocabulary decides which parser handles this format')
                 continue
-            cs = [c for s in b.body for c in ast.walk(s) if isinstance(c, ast.Call)]
-            target = [c for c in cs if fn.module.dotted(c.func) == f'{CU}.{callee}']
-            if not target:
-                called = sorted({ast.unparse(c.func) for c in cs})
-                chk.bad(oid, 'R7', fn.site(b.test), f'data_source == {src!r} -> {called}', f'{src!r} must be handled by {callee}')
-                continue
-            c = target[0]
-            if fname == 'generic_line_parser':
-                callee_fn = repo.func(CU, callee)
-                ba = bind_args(c, callee_fn)
-                want = {callee_fn.params[0]: fn.params[0]}
-                if callee == 'parse_ob_line':
-                    want[callee_fn.params[1]] = fn.params[1]
-                if callee == 'parse_ob_line_vw':
-                    want[callee_fn.params[3]] = fn.params[3]
-                    want[callee_fn.params[4]] = fn.params[4]
-                wrong = [k for k, v in want.items() if not (isinstance(ba.get(k), ast.Name) and ba[k].id == v)]
-                chk.expect(not wrong, oid, 'R6', fn.site(c), ast.unparse(c), f'{src!r} -> {callee} with line/delimiter/mapping/header in their roles',
-                           f'argument(s) {wrong} of {callee} do not receive the corresponding parameter of {fname}')
-            else:
-                chk.ok(oid, 'R7', fn.site(c), f'{src!r} -> {callee}', 'source format handled by its reader')
-        chk.expect(body_raises(else_body), oid + '-default', 'R7', fn.site(first), 'else: raise', 'unknown source formats are rejected',
-                   'the default branch must raise: an unknown --data_source must not be parsed by some other parser')
+            for assume, res in paths[:1] if len({ast.unparse(r.returned) if r.returned is not None else None for _, r in paths}) == 1 else paths:
+                if res.raised is not None or res.returned is None:
+                    chk.bad(oid, 'R7', fn.site(res.raised) if res.raised is not None else fn.site(), f'data_source == {src!r}', f'source format {src!r} is not handled by {fname} (falls to the default branch)')
+                    continue
+                cs = [c for c in ast.walk(res.returned) if isinstance(c, ast.Call)]
+                target = [c for c in cs if fn.module.dotted(c.func) == f'{CU}.{callee}']
+                if not target:
+                    called = sorted({ast.unparse(c.func) for c in cs})
+                    chk.bad(oid, 'R7', fn.site(), f'data_source == {src!r} -> {called}', f'{src!r} must be handled by {callee}')
+                    continue
+                c = target[0]
+                if fname == 'generic_line_parser':
+                    callee_fn = repo.func(CU, callee)
+                    ba = bind_args(c, callee_fn)
+                    want = {callee_fn.params[0]: fn.params[0]}
+                    if callee == 'parse_ob_line':
+                        want[callee_fn.params[1]] = fn.params[1]
+                    if callee == 'parse_ob_line_vw':
+                        want[callee_fn.params[3]] = fn.params[3]
+                        want[callee_fn.params[4]] = fn.params[4]
+                    wrong = [k for k, v in want.items() if not (isinstance(ba.get(k), ast.Name) and ba[k].id == v)]
+                    whole = res.returned is c or ast.unparse(res.returned) == ast.unparse(c)
+                    chk.expect(not wrong and whole, oid, 'R6', fn.site(c) if hasattr(c, 'lineno') else fn.site(), ast.unparse(res.returned)[:120], f'{src!r} -> {callee} with line/delimiter/mapping/header in their roles',
+                               (f'argument(s) {wrong} of {callee} do not receive the corresponding parameter of {fname}' if wrong else f'the row returned for {src!r} is not the result of {callee} as it is'))
+                else:
+                    chk.ok(oid, 'R7', fn.site(c) if hasattr(c, 'lineno') else fn.site(), f'{src!r} -> {callee}', 'source format handled by its reader')
+        paths = run_paths(fn, _is_data_source, 'no-such-source', max_forks=3) or []
+        if paths and all(r.raised is not None for _, r in paths):
+            chk.ok(oid + '-default', 'R7', fn.site(paths[0][1].raised), 'unknown source -> raise', 'unknown source formats are rejected')
+        elif paths and any(r.unknown is not None for _, r in paths):
+            chk.unsure(oid + '-default', 'R7', fn.site(), 'unknown source', 'the result for an unknown --data_source could not be determined')
+        else:
+            chk.bad(oid + '-default', 'R7', fn.site(), 'else: raise', 'the default branch must raise: an unknown --data_source must not be parsed by some other parser')
 
 
 # -- 6 namespace map ---------------------------------------------------------
 def namespace_reader(repo, chk):
+    """One line of the namespace file, evaluated path by path (tests forked, assignments substituted): every path stores
+    field 0 -> field 1 of the comma-split line into the returned map; the feature enters the float set exactly when its declared type
+    (field 2; two-field lines have a fixed non-float type) is 'f32'; a line is read as a two-field line exactly when it has two fields
+    (and the id carries no '_')."""
+    from ..match import run_paths
     fn = repo.func(CU, 'parse_namespace')
     m = fn.module
     rets = returns(fn)
-    par = parents(fn.node)
-    stores = [s for s in own_nodes(fn.node) if isinstance(s, ast.Assign) and isinstance(s.targets[0], ast.Subscript) and isinstance(s.targets[0].value, ast.Name)]
-    adds = calls(fn, attr='add')
-    if not stores or not adds or not rets:
-        chk.bad('C16.6', 'R15', fn.site(), 'id_feature_map[id] = feature / float_set.add(feature)', 'the namespace reader no longer fills the id->feature map or the float set')
+    loops = [n for n in own_nodes(fn.node) if isinstance(n, ast.For) and isinstance(n.target, ast.Name)]
+    if not loops or not rets:
+        chk.unsure('C16.6', 'R15', fn.site(), 'for line in <namespace file>', 'no loop over the lines of the namespace file was found')
         return
-    st = stores[0]
-    map_name = st.targets[0].value.id
-    key, val = st.targets[0].slice, st.value
-    # id and feature are unpacked from the comma-split parts at positions 0 and 1 in every unpacking
-    unpacks = [s for s in own_nodes(fn.node) if isinstance(s, ast.Assign) and isinstance(s.targets[0], ast.Tuple)]
-    ok = isinstance(key, ast.Name) and isinstance(val, ast.Name) and bool(unpacks)
-    if ok:
-        for u in unpacks:
-            names = [e.id if isinstance(e, ast.Name) else None for e in u.targets[0].elts]
-            if len(names) < 2 or names[0] != key.id or names[1] != val.id:
-                ok = False
-            src = term_of(fn, u.value, {})
-            lv = next((l.target.id for l in own_nodes(fn.node) if isinstance(l, ast.For) and isinstance(l.target, ast.Name) and any(x is u for x in ast.walk(l))), 'line')
-            if src not in (expected_term(m, f"{lv}.strip().split(',')"), expected_term(m, f"{lv}.rstrip().split(',')"), expected_term(m, f"{lv}.rstrip('\\n').split(',')")):
-                ok = False
-    chk.expect(ok, 'C16.6a', 'R15', fn.site(st), ast.unparse(st), 'id_feature_map[first field] = second field of the comma-split line',
-               'the map must store field 0 -> field 1 of the comma-split line for every accepted line')
-    # the store must not be conditional inside the per-line body (other than try)
-    conds = [p for p in _enclosing_ifs(st, par)]
-    chk.expect(not conds, 'C16.6b', 'R13', fn.site(st), ast.unparse(st), 'stored for every accepted line', 'the id->feature store became conditional: some declared namespaces are missing from the map')
-    a = adds[0]
-    g = _enclosing_ifs(stmt_of(a, par), par)
-    gt = [term_of(fn, x.test, {}) for x in g]
-    two = [u for u in unpacks if len(u.targets[0].elts) == 2]
-    three = [u for u in unpacks if len(u.targets[0].elts) == 3]
-    tname = three[0].targets[0].elts[2].id if three and isinstance(three[0].targets[0].elts[2], ast.Name) else 'type_name'
-    want = Canon(m, Scope(None), inline=False).t(ast.parse(f"{tname} == 'f32'", mode='eval').body)
-    ok_guard = want in [Canon(m, Scope(None), inline=False).t(x.test) for x in g]
-    ok_arg = len(a.args) == 1 and isinstance(a.args[0], ast.Name) and isinstance(val, ast.Name) and a.args[0].id == val.id
-    chk.expect(ok_guard and ok_arg and len(g) == 1, 'C16.6c', 'R14', fn.site(a), ast.unparse(stmt_of(a, par)), "float set gets the feature iff its declared type is 'f32'",
-               "float_set.add(feature) must be guarded by exactly `type_name == 'f32'`")
-    # which lines are two-field lines
-    tests = [n for n in own_nodes(fn.node) if isinstance(n, ast.If) and any(u in n.body or u in n.orelse for u in unpacks)]
-    if tests:
-        tt = term_of(fn, tests[0].test, {}, inline=False)
-        pn = ast.unparse(two[0].value) if two else 'namespace_parts'
-        want2 = [expected_term(m, f"len({pn}) == 2 and '_' not in {pn}[0]"), expected_term(m, f"len({pn}) == 2")]
-        in_body = bool(two) and two[0] in tests[0].body
-        chk.expect(tt in want2 and in_body, 'C16.6f', 'R14', fn.site(tests[0]), ast.unparse(tests[0].test), 'two-field lines (id,feature) are read as such, three-field lines carry their type',
-                   'the test that separates two-field from three-field namespace lines changed: lines are unpacked with the wrong arity, raise inside the try and are silently dropped from the id->feature map')
-    # two-field lines are 'generic'
-    gen_ok = False
-    for u in two:
-        blk = par.get(u)
-        sib = getattr(blk, 'body', []) if u in getattr(blk, 'body', []) else getattr(blk, 'orelse', [])
-        for s in sib:
-            if isinstance(s, ast.Assign) and isinstance(s.targets[0], ast.Name) and s.targets[0].id == tname and isinstance(s.value, ast.Constant) and s.value.value != 'f32':
-                gen_ok = True
-    chk.expect(gen_ok or not two, 'C16.6d', 'R15', fn.site(two[0]) if two else fn.site(), 'two-field line -> generic type', 'two-field lines are typed generic', 'a two-field line must get a non-float type')
+    lp = loops[0]
+    lv = lp.target.id
+    E = lambda src: expected_term(m, src, {'line': ('role', 'line')})
+    roles = {lv: ('role', 'line')}
+    paths = run_paths(fn, None, None, max_forks=5, body=lp.body)
+    if paths is None:
+        chk.unsure('C16.6', 'R15', fn.site(lp), 'per-line body', 'too many undecidable tests in the per-line body')
+        return
+    parts_forms = [E("line.strip().split(',')"), E("line.rstrip().split(',')"), E("line.rstrip('\\n').split(',')"), E("line.rstrip('\\r\\n').split(',')")]
     r = rets[-1]
-    rt = r.value
-    ok_ret = isinstance(rt, ast.Tuple) and len(rt.elts) == 2 and isinstance(rt.elts[1], ast.Name) and rt.elts[1].id == map_name and isinstance(rt.elts[0], ast.Name) and isinstance(a.func.value, ast.Name) and rt.elts[0].id == a.func.value.id
-    chk.expect(ok_ret, 'C16.6e', 'R6', fn.site(r), ast.unparse(r), 'returns (float set, id->feature map)', 'the reader must return (float_set, id_feature_map) in this order (callers unpack positionally)')
+    ret_names = [e.id if isinstance(e, ast.Name) else None for e in r.value.elts] if isinstance(r.value, ast.Tuple) and len(r.value.elts) == 2 else [None, None]
+    float_name, map_name = ret_names
+    ok_ret = float_name is not None and map_name is not None
+    n_store = n_paths = 0
+    problems = {}
+    for assume, res in paths:
+        if res.unknown is not None:
+            chk.unsure('C16.6', 'R15', fn.site(res.unknown), ast.unparse(res.unknown)[:80], 'statement outside the path vocabulary in the per-line body')
+            continue
+        n_paths += 1
+        stores = [u for u in res.updates if u['kind'] == 'store1' and isinstance(u['target'], ast.Name)]
+        adds = [c for c in res.calls if isinstance(c['call'].func, ast.Attribute) and c['call'].func.attr == 'add' and isinstance(c['call'].func.value, ast.Name)]
+        # which parts expression does this path work on?
+        P = None
+        for u in stores:
+            kt = term_of(fn, u['key'], roles, inline=False)
+            if kt[0] == 'sub' and kt[2] == ('num', 0):
+                P = kt[1]
+        if not stores:
+            if res.ended not in ('continue', 'break'):
+                problems.setdefault('C16.6b', (lp, 'the id->feature store became conditional: some declared namespaces are missing from the map'))
+            continue
+        if len(stores) != 1 or P is None or P not in parts_forms:
+            st = stores[0]
+            kt = term_of(fn, st['key'], roles, inline=False)
+            symbolic = any(isinstance(x, tuple) and x and x[0] == 'name' for x in walk_term(kt))
+            if not symbolic and (P is not None and P in parts_forms or within_vocab(kt, parts_forms)):
+                problems.setdefault('C16.6a', (st['node'], 'the map must store field 0 -> field 1 of the comma-split line for every accepted line'))
+            else:
+                chk.unsure('C16.6a', 'R15', fn.site(st['node']), ast.unparse(st['node'])[:100], 'how the fields of the line are obtained is outside the vocabulary of the accepted forms')
+            continue
+        st = stores[0]
+        n_store += 1
+        f0, f1, f2 = ('sub', P, ('num', 0)), ('sub', P, ('num', 1)), ('sub', P, ('num', 2))
+        vt = term_of(fn, st['value'], roles, inline=False)
+        if vt != f1 or (map_name and st['target'].id != map_name):
+            problems.setdefault('C16.6a', (st['node'], 'the map must store field 0 -> field 1 of the comma-split line for every accepted line'))
+        # two-field vs three-field decision of this path
+        two_forms = [expected_term(m, "len(P) == 2 and '_' not in P[0]", {'P': P}), expected_term(m, 'len(P) == 2', {'P': P})]
+        two = None
+        for t, v in res.assumed:
+            tt = term_of(fn, t, roles, inline=False)
+            if tt in two_forms:
+                two = v
+            elif tt[0] == 'or' or tt[0] == 'not' or tt[0] == 'cmp':
+                # negated spellings: len(P) != 2 or '_' in P[0]
+                neg = Canon(m, Scope(None))._not(tt)
+                if neg in two_forms:
+                    two = not v
+        # the declared type on this path
+        type_terms = []
+        for t, v in res.assumed:
+            tt = term_of(fn, t, roles, inline=False)
+            if tt[0] == 'cmp' and tt[1] in ('==', '!=') and ('str', 'f32') in (tt[2], tt[3]):
+                other = tt[3] if tt[2] == ('str', 'f32') else tt[2]
+                type_terms.append((other, (tt[1] == '==') == v))
+        added = [c for c in adds if (not float_name or c['call'].func.value.id == float_name)]
+        if two is None:
+            if any(any(x == ('call', ('name', 'len'), (P,), ()) for x in walk_term(term_of(fn, t, roles, inline=False))) for t, v in res.assumed):
+                problems.setdefault('C16.6f', (lp, 'the test that separates two-field from three-field namespace lines changed: lines are unpacked with the wrong arity, raise inside the try and are silently dropped from the id->feature map'))
+            continue
+        if two:
+            # fixed, non-float type: never added to the float set
+            fixed = [tt for tt, is_f32 in type_terms]
+            if any(tt[0] != 'str' for tt in fixed) or not type_terms and added:
+                problems.setdefault('C16.6d', (st['node'], 'a two-field line must get a non-float type'))
+            if any(tt == ('str', 'f32') for tt in fixed) or added:
+                problems.setdefault('C16.6d', (st['node'], 'a two-field line must get a non-float type'))
+        else:
+            is_f32 = [v for tt, v in type_terms if tt == f2]
+            if not is_f32:
+                problems.setdefault('C16.6c', (st['node'], "float_set.add(feature) must be guarded by exactly `type_name == 'f32'` (the third field of the line)"))
+                continue
+            if is_f32[0]:
+                ok_add = len(added) == 1 and term_of(fn, added[0]['call'].args[0], roles, inline=False) == f1 if added and added[0]['call'].args else False
+                if not ok_add:
+                    problems.setdefault('C16.6c', (st['node'], "a feature whose declared type is 'f32' must be added to the float set"))
+            elif added:
+                problems.setdefault('C16.6c', (added[0]['node'], "float_set.add(feature) must be guarded by exactly `type_name == 'f32'`"))
+    good = {'C16.6a': 'id_feature_map[first field] = second field of the comma-split line', 'C16.6b': 'stored for every accepted line', 'C16.6c': "float set gets the feature iff its declared type is 'f32'",
+            'C16.6d': 'two-field lines are typed generic', 'C16.6f': 'two-field lines (id,feature) are read as such, three-field lines carry their type'}
+    if n_store == 0 and not problems and not any(o.oid.startswith('C16.6') for o in chk.obs):
+        chk.bad('C16.6', 'R15', fn.site(), 'id_feature_map[id] = feature / float_set.add(feature)', 'the namespace reader no longer fills the id->feature map or the float set')
+    for oid, why_ok in good.items():
+        if oid in problems:
+            node, why = problems[oid]
+            chk.bad(oid, 'R15' if oid in ('C16.6a', 'C16.6d') else 'R14', fn.site(node), ast.unparse(node).replace('\n', ' ')[:100], why)
+        elif n_store:
+            chk.ok(oid, 'R15', fn.site(lp), f'{n_store} storing path(s) of {n_paths}', why_ok)
+    chk.expect(ok_ret and isinstance(r.value, ast.Tuple), 'C16.6e', 'R6', fn.site(r), ast.unparse(r), 'returns (float set, id->feature map)', 'the reader must return (float_set, id_feature_map) in this order (callers unpack positionally)')
+    if ok_ret:
+        # order: the first returned object is the one that receives .add, the second the one that is subscript-stored
+        add_targets = {c.func.value.id for c in calls(fn, attr='add') if isinstance(c.func.value, ast.Name)}
+        store_targets = {n.targets[0].value.id for n in own_nodes(fn.node) if isinstance(n, ast.Assign) and isinstance(n.targets[0], ast.Subscript) and isinstance(n.targets[0].value, ast.Name)}
+        chk.expect(float_name in add_targets and map_name in store_targets, 'C16.6e', 'R6', fn.site(r), ast.unparse(r), 'returns (float set, id->feature map)', 'the reader must return (float_set, id_feature_map) in this order (callers unpack positionally)')
+
+
+def within_vocab(found, accepted):
+    from ..match import within_vocabulary
+    return within_vocabulary(found, accepted)
